@@ -6,6 +6,7 @@ import (
 	"bufio"
 	"encoding/json"
 	"fmt"
+	"hash"
 	"net/url"
 	"os"
 	"os/exec"
@@ -329,6 +330,27 @@ func c10Descs() []desc {
 			in := oi[ix[3]]
 			return fmt.Sprintf("%s, %s, %s, lens(%d,%d,%d,%d,%d)", sh(s), sh(code), sd, len(in.Counter), len(in.Challenge), len(in.Password), len(in.SessionInfo), len(in.Timestamp)), func() { otp.ValidateOCRA(s, code, su, in) }
 		}},
+		{"chosen HMAC output: every code value class x digits through every deriving entry point", "GenerateHOTP", []int{len(c01Windows()), 12, 3}, func(ix []int) (string, func()) {
+			// the formatting stage sees values that real keys produce once in 10^8 calls (0, 1..9, 10^k-1, 10^k, 2^31-1 ...)
+			w := c01Windows()[ix[0]]
+			d := []int{1, 2, 3, 4, 5, 6, 7, 8, 9, 10, 0, 11}[ix[1]]
+			sumLen := []int{20, 32, 64}[ix[2]]
+			return fmt.Sprintf("31-bit value %d, %d digits, %d-byte digest", w&0x7fffffff, d, sumLen), func() {
+				sum := markerSum(sumLen, int(w)%16, w, 0x3)
+				restore := otp.VerifSetHMAC(otp.Algorithm(ix[2]), func(key []byte) hash.Hash { return &fakeHash{sum: sum} })
+				defer restore()
+				p := &otp.Param{Digits: otp.Digits(d), Algorithm: otp.Algorithm(ix[2]), Skew: 1, Period: 30}
+				code, _ := otp.GenerateHOTP(aSecrets[2], 1, p)
+				otp.ValidateHOTP(aSecrets[2], code, 1, p)
+				otp.ValidateHOTP(aSecrets[2], strings.Repeat("1", d), 1, p)
+				otp.GenerateTOTP(aSecrets[2], time.Unix(59, 0), p)
+				otp.ValidateTOTP(aSecrets[2], strings.Repeat("0", d), time.Unix(59, 0), p)
+				cfg := otp.SuiteConfig{Raw: "x", Hash: otp.Algorithm(ix[2]), Digits: d, IncludeChallenge: true, Challenge: 1}
+				oc, _ := otp.GenerateOCRA(aSecrets[2], cfg, otp.OCRAInput{Challenge: mkLen(8, 1)})
+				otp.ValidateOCRA(aSecrets[2], oc, cfg, otp.OCRAInput{Challenge: mkLen(8, 1)})
+				otp.DeriveRFC4226Wasm(mkLen(20, 1), 1, d, otp.Algorithm(ix[2]))
+			}
+		}},
 		{"length sweep: every text length 0..1100 in three contents", "DecodeSecret", []int{14, 1101, 3}, func(ix []int) (string, func()) {
 			if ix[1] > 300 && ix[1]%8 == 0 && ix[1]%7 != 0 && ix[0] > 1 {
 				return "", nil // beyond 300 the whole-block lengths are thinned out for the slower operations
@@ -442,6 +464,15 @@ func c10Descs() []desc {
 			kind := "SuiteConfig"
 			if ix[4] == 1 {
 				su, kind = otp.RawSuite{SuiteConfig: cfg}, "RawSuite"
+				if ix[5] == 2 {
+					// what a caller holds after EDITING a constructor's result (hidden fields of the value are kept)
+					if s0, err := otp.NewRawSuite("OCRA-1:HOTP-SHA1-6:QN08"); err == nil {
+						if rs, ok := s0.(otp.RawSuite); ok {
+							rs.SuiteConfig = cfg
+							su, kind = rs, "NewRawSuite(...) result with its configuration replaced by"
+						}
+					}
+				}
 			}
 			in := []otp.OCRAInput{{Challenge: mkLen(8, 2)}, {Counter: mkLen(8, 1), Challenge: mkLen(16, 2), Password: mkLen(20, 3), SessionInfo: mkLen(5, 4), Timestamp: mkLen(8, 5)}, {}}[ix[5]]
 			code := "1"
